@@ -65,7 +65,9 @@ fn is_field_numeric_consistent(zone_plans: &[ZonePlan], key: &str) -> bool {
             };
         }
     }
-    kind != Kind::Unknown
+    // Kind::U (values above i64::MAX) is encoded in the raw u64 lane, which does not order
+    // against the sign-flipped i64 lane every query literal is encoded in: do not build a SuRF
+    kind != Kind::Unknown && kind != Kind::U
 }
 
 #[derive(Clone, Debug, Serialize, Deserialize)]
